@@ -4,7 +4,7 @@ NFA-DISPATCH (builders)."""
 from . import core, cond
 from .core import Callee, walk, show, mk_phi
 from .view import FnView, pnorm, mk_payload, OPTION, RESULT
-from .pat import m, ANY, V, K, Par, C, F, E, P, B, Phi, OneOf, members, strip_iter
+from .pat import m, ANY, V, K, Par, C, F, E, P, B, Phi, OneOf, members, strip_iter, It
 from .search import opt_arms, bool_arms, switches_on, is_const, self_param
 
 VEC_PUSH = "alloc::vec::Vec::push"
@@ -303,24 +303,31 @@ def _fail_pass(ctx, R, NR, b):
             rootpulls.append((bi, r))
         else:
             ctx.bad("NFA-FAIL", b, "unexpected-iteration:" + tag, b.loc(bi), "unexpected iteration source %s" % show(r))
-    ctx.check(len(rootpulls) == 1, "NFA-FAIL", b, "seed-root-children:" + tag, b.span,
+    # the queue's additions (push in a loop / extend(iterator) / for_each): the seed = every child of ROOT, in edge order, once;
+    # afterwards every visited child
+    from .da import Sites
+    from . import coll
+    SS = Sites(lib, b)
+    adds = coll.additions(SS, lambda t: core.same(t, ret), closures=True)
+    rootvals = C("alloc::collections::BTreeMap::values", F(nfa_state(K(0)), "edges", NS))
+    seeds = [a for a in adds if m(It(OneOf(rootvals, C("core::iter::Iterator::copied", rootvals))), a.val)]
+    ctx.check(len(seeds) == 1, "NFA-FAIL", b, "seed-root-children:" + tag, b.span,
               "the queue must be seeded with the children of ROOT (values of states[ROOT].edges)")
     ctx.check(len(epulls) == 1, "NFA-FAIL", b, "edge-iteration:" + tag, b.span,
               "every edge of the dequeued state must be visited (one iteration over states[q[qi]].edges)")
-    if len(epulls) != 1 or len(rootpulls) != 1:
+    if len(epulls) != 1 or len(seeds) != 1:
         return
     ebi, esrc = epulls[0]
     esite = (b.path, ebi)
-    rsite = (b.path, rootpulls[0][0])
     item = P(C("core::iter::Iterator::next", ANY, site=esite))
     child = F(item, "1", "(tuple)")
     label = F(item, "0", "(tuple)")
-    # pushes: root children + edge children
-    seed_ok = any(m(P(C("core::iter::Iterator::next", ANY, site=rsite)), t) for t, _ in pushes)
-    child_push = [bb for t, bb in pushes if m(child, t)]
-    ctx.check(seed_ok, "NFA-FAIL", b, "seed-push:" + tag, b.span, "each child of ROOT must be pushed on the queue")
-    ctx.check(len(child_push) == 1 and len(pushes) == 2, "NFA-FAIL", b, "enqueue-child:" + tag, b.span,
-              "each visited child must be enqueued exactly once; pushes: %s" % [show(t) for t, _ in pushes])
+    seed_ok = seeds[0].unconditional() and seeds[0].bb not in b.reach(qbi)
+    child_adds = [a for a in adds if m(child, a.val)]
+    child_push = [a.bb for a in child_adds]
+    ctx.check(seed_ok, "NFA-FAIL", b, "seed-push:" + tag, b.span, "each child of ROOT must be pushed on the queue (before the walk starts)")
+    ctx.check(len(child_push) == 1 and len(adds) == 2, "NFA-FAIL", b, "enqueue-child:" + tag, b.span,
+              "each visited child must be enqueued exactly once; additions: %s" % [show(a.val) for a in adds])
     # fail writes
     S = nfa_state(cur)
     fail_chain = Phi(F(S, "fail", NS), F(nfa_state(ANY), "fail", NS))
@@ -558,21 +565,29 @@ def rule_add(ctx, R, NR, rules=None):
     if want("VALID-EMPTY"):
         ia = [(vw, bi) for vw, bi in errcalls.get("invalid_argument", [])]
         # the guard: Try::branch switch consuming ok_or_else(NonZero::new(len)) -> residual
+        # (or an explicit `match NonZeroU32::new(len) { Some(n) => n, None => return Err(invalid_argument(..)) }`)
         zg = None
-        for sbi, stj, d in switches_on(root, lambda d: d[0] == "discr" and d[1][0] == "call" and
-                                       core.callee_base(d[1][1]) == "core::ops::Try::branch"):
-            arg = d[1][2][0]
-            if arg[0] == "call" and core.callee_base(arg[1]) == "core::option::Option::ok_or_else" and \
-                    arg[2][0][0] == "call" and core.callee_base(arg[2][0][1]) == "core::num::NonZero::new":
-                zg = (sbi, stj)
+        zcont = None
+        for sbi, stj, d in switches_on(root, lambda d: d[0] == "discr" and d[1][0] == "call"):
+            x = d[1]
+            if core.callee_base(x[1]) == "core::ops::Try::branch":
+                arg = x[2][0]
+                if arg[0] == "call" and core.callee_base(arg[1]) == "core::option::Option::ok_or_else" and \
+                        arg[2][0][0] == "call" and core.callee_base(arg[2][0][1]) == "core::num::NonZero::new":
+                    zg = (sbi, stj)
+                    zcont = [tb for val, tb in stj["targets"] if val == 0]
+            elif core.callee_base(x[1]) == "core::num::NonZero::new":
+                some_, none_ = opt_arms(stj)
+                # the None arm leads to an invalid_argument error return, never on to the trie
+                if any(bi_ in b.reach(none_, avoid_blocks=[some_]) for vw_, bi_ in ia if vw_ is root) and \
+                        not any(mb in b.reach(none_, avoid_blocks=[sbi]) for mb, _ in muts):
+                    zg = (sbi, stj)
+                    zcont = [some_]
         ctx.check(zg is not None and len(ia) >= 2, "VALID-EMPTY", b, "zero-length-guard", b.span,
                   "add must reject a zero-length pattern with invalid_argument (NonZero::new(len).ok_or_else(..)?)")
         if zg:
             sbi, stj = zg
-            cont = None
-            for val, tb in stj["targets"]:
-                if val == 0:
-                    cont = tb
+            cont = zcont[0] if zcont else None
             for bi, nm in muts:
                 ctx.check(cont is not None and b.edge_guards((sbi, cont), bi), "VALID-EMPTY", b, "mutation-after-guard:" + nm, b.loc(bi),
                           "the trie may be modified only after the zero-length check succeeded")
@@ -660,7 +675,7 @@ def _nfa_lf(ctx, NR, b, fv, want):
         # ... and unconditionally: under leftmost-first no path through one iteration may bypass it (evaluated under the
         # assumption is_leftmost_first() == true, every other condition left open)
         pulls = [bi for vw, bi, c, tj in fv.calls(lambda c: core.callee_base(c.key) == "core::iter::Iterator::next")
-                 if vw is root and b.in_cycle(bi) and b.dominates(bi, ibi)]
+                 if vw is root and b.in_cycle(bi) and b.dominates(bi, ibi) and bi in b.reach(ibi)]
         oku = len(pulls) == 1
         if oku:
             psw = switches_on(root, lambda d_: d_[0] == "discr" and d_[1][0] == "call" and d_[1][3] == (b.path, pulls[0]))
@@ -751,6 +766,11 @@ def _count_initial_states(t):
     return None
 
 
+def pat_iter_origin(t):
+    from .pat import iter_origin
+    return iter_origin(t)
+
+
 def _val_add(ctx, NR, b, fv):
     root = fv.root
     NS = NR.NS
@@ -778,11 +798,29 @@ def _val_add(ctx, NR, b, fv):
             ctx.check(okl, "VAL-ADD", b, "length-sums-num_bytes", b.loc(bi),
                       "the pattern length must be the sum of num_bytes() over all labels; fold closure returns %s" % (show(cr) if cr else "?"))
         else:
-            ctx.bad("VAL-ADD", b, "length-sums-num_bytes", b.loc(bi),
-                    "the stored length must be fold(pattern.iter(), 0, |acc, c| acc + c.num_bytes()); found %s" % show(ln))
+            # explicit accumulation: n = 0; for c in pattern { n += c.num_bytes() }  (every label, unconditionally)
+            nb = C(lambda k: k.endswith("EdgeLabel::num_bytes"), It(OneOf(Par(2), C("core::slice::iter", Par(2)))))
+            accs = [x for x in walk(ln) if x[0] == "phi" and m(Phi(B("Add", ANY, nb), K(0), req=[0, 1]), x)]
+            okl = len(accs) >= 1
+            if okl:
+                # the summing loop's pull: every pulled label reaches the addition
+                lp = [(bi2, tj) for vw, bi2, c, tj in fv.calls(lambda c: core.callee_base(c.key) == "core::iter::Iterator::next")
+                      if vw is root and m(Par(2), strip_iter(pat_iter_origin(root.op(tj["args"][0]))))]
+                nbc = [bi2 for vw, bi2, c, tj in fv.calls(lambda c: c.key.split("@")[0].endswith("EdgeLabel::num_bytes")) if vw is root]
+                okl = False
+                for pbi, ptj in lp:
+                    sw_ = switches_on(root, lambda d: d[0] == "discr" and d[1][0] == "call" and d[1][3] == (b.path, pbi))
+                    if len(sw_) == 1 and nbc:
+                        some_ = opt_arms(sw_[0][1])[0]
+                        if any(b.edge_guards((sw_[0][0], some_), x) and pbi not in (b.reach(some_, avoid_blocks=[x]) - {some_}) for x in nbc):
+                            okl = True
+            ctx.check(okl, "VAL-ADD", b, "length-sums-num_bytes", b.loc(bi),
+                      "the stored length must be the sum of num_bytes() over all labels of the pattern; found %s" % show(ln))
     # the walk consumes every label of the pattern: one pull over param pattern, cursor advanced each step
-    pulls = [(bi2, root.op(tj["args"][0])) for vw, bi2, c, tj in fv.calls(lambda c: core.callee_base(c.key) == "core::iter::Iterator::next") if vw is root]
-    ctx.check(len(pulls) == 1 and m(Par(2), pulls[0][1]), "VAL-ADD", b, "walk-whole-pattern", b.span,
+    cids = [bi2 for vw, bi2, c, tj in fv.calls(lambda c: c.name == "child_id") if vw is root]
+    pulls = [(bi2, root.op(tj["args"][0])) for vw, bi2, c, tj in fv.calls(lambda c: core.callee_base(c.key) == "core::iter::Iterator::next")
+             if vw is root and any(bi2 in b.reach(x) and x in b.reach(bi2) for x in cids)]
+    ctx.check(len(pulls) == 1 and m(Par(2), strip_iter(pat_iter_origin(pulls[0][1]))), "VAL-ADD", b, "walk-whole-pattern", b.span,
               "add must walk every label of the pattern parameter")
     if len(pulls) == 1:
         # registration only after the loop ended (None arm of the pull)
